@@ -5,8 +5,9 @@ from props._util import rng_for, run_cases
 from props.C01 import knotted
 
 LEVEL = "other"
-DEDUCTIVE = []
-TRUSTED = ["z3 5.1.0", "itertools.permutations/product enumerate exactly", "CPython 3.12"]
+DEDUCTIVE = [{"module": "rnapolis.common", "sidecar": "contracts.common_all_c",
+              "targets": ["BpSeq.all_dot_brackets", "BpSeq.__make_dot_bracket@dict"]}]
+TRUSTED = ["z3 5.1.0 / cvc5 1.0.3", "pyvc encoding of Python semantics (DESIGN 2.3)", "CPython 3.12"]
 ASSUMPTIONS = []
 EXPLANATION = "see DESIGN.md 4/C16"
 
